@@ -321,8 +321,10 @@ class Normaliser:
             self.n2_stable_aliases()
             if self.stats == before:
                 break
+        self.n16_scan_lookup_to_loop()
         self.n14_copy_propagation()
         self.n7_pure_locals()
+        self.n15_elsify()
         for tree in self.trees.values():
             ast.fix_missing_locations(tree)
         return self
@@ -846,6 +848,100 @@ class Normaliser:
         if isinstance(e, ast.Call) and isinstance(e.func, ast.Name) and e.func.id == 'len' and len(e.args) == 1 and not e.keywords:
             return Normaliser._pure_read(e.args[0], sn)
         return False
+
+    # ---- N15
+    def n15_elsify(self):
+        """if C: ...; return/raise      ->   if C: ...; return/raise
+           rest                              else: rest
+        (the guard-clause form and the if/else form of the same decision get one shape)"""
+        for rel, tree in self.trees.items():
+            for fn in fn_nodes(tree):
+                self._n15_block(fn, fn.body, rel)
+
+    def _n15_block(self, fn, body, rel):
+        i = 0
+        while i < len(body):
+            st = body[i]
+            if isinstance(st, ast.If) and not self._innermost_orelse(st) and self._all_branches_terminate(st) and i + 1 < len(body):
+                rest = body[i + 1:]
+                del body[i + 1:]
+                self._set_innermost_orelse(st, rest)
+                self.note('N15', f'{rel}:{fn.name}: statements after a terminating if moved into its else-branch')
+            for sub in self._sub_blocks(st):
+                self._n15_block(fn, sub, rel)
+            i += 1
+
+    @staticmethod
+    def _innermost_orelse(st):
+        cur = st
+        while len(cur.orelse) == 1 and isinstance(cur.orelse[0], ast.If):
+            cur = cur.orelse[0]
+        return cur.orelse
+
+    @staticmethod
+    def _set_innermost_orelse(st, rest):
+        cur = st
+        while len(cur.orelse) == 1 and isinstance(cur.orelse[0], ast.If):
+            cur = cur.orelse[0]
+        cur.orelse = rest
+
+    @staticmethod
+    def _all_branches_terminate(st):
+        cur = st
+        while True:
+            if not cur.body or not isinstance(cur.body[-1], (ast.Return, ast.Raise, ast.Continue, ast.Break)):
+                return False
+            if len(cur.orelse) == 1 and isinstance(cur.orelse[0], ast.If):
+                cur = cur.orelse[0]
+                continue
+            return True
+
+    # ---- N16
+    def n16_scan_lookup_to_loop(self):
+        """X = next((e for e in EDGES if e.can_put()), None)   ->   X = None ; for e in EDGES: if e.can_put(): X = e; break"""
+        for rel, tree in self.trees.items():
+            for fn in fn_nodes(tree):
+                self._n16_block(fn, fn.body, rel)
+
+    def _n16_block(self, fn, body, rel):
+        i = 0
+        while i < len(body):
+            st = body[i]
+            v = st.value if isinstance(st, ast.Assign) and len(st.targets) == 1 and isinstance(st.targets[0], ast.Name) else None
+            if isinstance(v, ast.Call) and isinstance(v.func, ast.Name) and v.func.id == 'next' and len(v.args) == 2 and isinstance(v.args[0], ast.GeneratorExp) \
+                    and isinstance(v.args[1], ast.Constant) and v.args[1].value is None:
+                ge = v.args[0]
+                g = ge.generators[0]
+                if len(ge.generators) == 1 and isinstance(g.target, ast.Name) and len(g.ifs) == 1 and isinstance(ge.elt, ast.Name) and ge.elt.id == g.target.id \
+                        and isinstance(g.ifs[0], ast.Call) and isinstance(g.ifs[0].func, ast.Attribute) and g.ifs[0].func.attr in ('can_put', 'can_get') \
+                        and isinstance(g.ifs[0].func.value, ast.Name) and g.ifs[0].func.value.id == g.target.id and not g.ifs[0].args:
+                    x = st.targets[0].id
+                    lv = g.target.id
+                    names = {n.id for n in ast.walk(fn) if isinstance(n, ast.Name)} - {lv}
+                    inside = {n.id for n in ast.walk(ge) if isinstance(n, ast.Name)}
+                    others = sum(1 for n in ast.walk(fn) if isinstance(n, ast.Name) and n.id == lv) - sum(1 for n in ast.walk(ge) if isinstance(n, ast.Name) and n.id == lv)
+                    if others:
+                        new_lv = f'{lv}__scan'
+                        for n in ast.walk(ge):
+                            if isinstance(n, ast.Name) and n.id == lv:
+                                n.id = new_lv
+                        lv = new_lv
+                    init = ast.Assign(targets=[ast.Name(id=x, ctx=ast.Store())], value=ast.Constant(value=None))
+                    setx = ast.Assign(targets=[ast.Name(id=x, ctx=ast.Store())], value=ast.Name(id=lv, ctx=ast.Load()))
+                    iff = ast.If(test=g.ifs[0], body=[setx, ast.Break()], orelse=[])
+                    loop = ast.For(target=ast.Name(id=lv, ctx=ast.Store()), iter=g.iter, body=[iff], orelse=[])
+                    for n in (init, loop):
+                        for y in ast.walk(n):
+                            if not hasattr(y, 'lineno'):
+                                ast.copy_location(y, st)
+                        ast.copy_location(n, st)
+                    body[i:i + 1] = [init, loop]
+                    self.note('N16', f'{rel}:{fn.name}: first-available look-up rewritten as the scan loop')
+                    i += 2
+                    continue
+            for sub in self._sub_blocks(st):
+                self._n16_block(fn, sub, rel)
+            i += 1
 
     # ---- N13
     def n13_inline_tail_calls(self):
